@@ -95,6 +95,19 @@ def _mentions(n, lid):
     return H.mentions_local(n, lid)
 
 
+def _resolve_plain_local(e, scope, limit=4):
+    """follow a plain local to its `let` initialiser (an introduced local is the same value)"""
+    for _ in range(limit):
+        loc = H.local_of(e) if isinstance(e, dict) and H.peel(e).get("k") == "path" else None
+        if not loc:
+            return e
+        init = H.let_init_of(scope, loc[0])
+        if init is None:
+            return e
+        e = init
+    return e
+
+
 def _value_of(n):
     """Value expression of a closure/fn body: tail of the block after its statements."""
     n = H.peel(n, refs=False)
@@ -1172,59 +1185,117 @@ def r13_3(c, duke, R, spec):
                         R.inst(rid, "field:%s.<rest>" % tname, len(bs) == 1 and list(bs)[0][1] == "*", sp=(b2 or ml)["sp"],
                                expect="..client.clone() or ..server.clone()", got=sorted(bs))
 
-    # ---- one-sided interfaces
-    tabs = []
-    for n in H.walk(body):
-        if n.get("k") == "match" and H.peel(n["scrut"]).get("k") == "tuple" and len(H.peel(n["scrut"])["es"]) == 2:
-            es = H.peel(n["scrut"])["es"]
-            if all(H.peel(e).get("k") == "mcall" and H.peel(e)["name"] == "contains" for e in es):
-                tabs.append(n)
-    if R.anchor(rid, "class_merger_merge: `match (client.interfaces.contains(i), server.interfaces.contains(i))`", len(tabs) == 1, sp=fn["sp"]):
-        tab = tabs[0]
-        es = [H.peel(e) for e in H.peel(tab["scrut"])["es"]]
-        pos = []
-        for e in es:
-            s = sources(e["recv"], pids, body)
-            pos.append(list(s)[0] if len(s) == 1 else None)
-        okpos = all(p is not None and p[1] == "interfaces" for p in pos) and sorted(p[0] for p in pos if p) == [0, 1]
-        R.inst(rid, "interfaces:presence-from-both-sides", okpos, sp=tab["sp"], got=pos)
-        if okpos:
-            # which Side a pushed-to local is later annotated with
-            def side_of_local(lid):
-                out = set()
-                for n in H.walk(body):
-                    if n.get("k") == "mcall" and n["name"] in ("map", "for_each", "flat_map") and n["args"] and H.peel(n["args"][0]).get("k") == "closure":
-                        rr = H.recv_root(n["recv"])
-                        if rr and rr[0] == lid:
-                            for x in H.walk(H.peel(n["args"][0])["body"]):
-                                if _side_ctor(x):
-                                    out.add(_side_ctor(x))
-                return out
-            for (pc, ps, nm, want) in ((True, False, "client-only", {"Client"}), (False, True, "server-only", {"Server"}),
-                                       (True, True, "both", set()), (False, False, "neither", set())):
-                val = [None, None]
-                val[[p[0] for p in pos].index(0)] = ("b", pc)
-                val[[p[0] for p in pos].index(1)] = ("b", ps)
-                arm = None
-                for a in tab["arms"]:
-                    r = T.match_pat(a["pat"], ("t", val), {})
-                    if r is True and "guard" not in a:
-                        arm = a
+    # ---- one-sided interfaces: which side(s) an interface is listed under, as a function of (implemented by client, by server)
+    def side_of_local(lid):
+        """the Side constant(s) the elements of a local list are later annotated with"""
+        out = set()
+        for n in H.walk(body):
+            if n.get("k") == "mcall" and n["name"] in ("map", "for_each", "flat_map") and n["args"] and H.peel(n["args"][0]).get("k") == "closure":
+                rr = H.recv_root(n["recv"])
+                if rr and rr[0] == lid:
+                    for x in H.walk(H.peel(n["args"][0])["body"]):
+                        if _side_ctor(x):
+                            out.add(_side_ctor(x))
+            elif n.get("k") == "for":
+                rr = H.recv_root(n["iter"])
+                if rr and rr[0] == lid:
+                    for x in H.walk(n["body"]):
+                        if _side_ctor(x):
+                            out.add(_side_ctor(x))
+        return out
+
+    def presence_atom(n):
+        n0 = H.peel(_resolve_plain_local(n, body))
+        if n0.get("k") == "mcall" and n0["name"] == "contains" and len(n0["args"]) == 1:
+            src = sources(n0["recv"], pids, body)
+            if len(src) == 1 and list(src)[0][1] == "interfaces":
+                return "in:" + ("client", "server")[list(src)[0][0]]
+        return None
+
+    def is_presence_table(n):
+        if n.get("k") != "match" or H.peel(n["scrut"]).get("k") != "tuple":
+            return None
+        ats = [presence_atom(e) for e in H.peel(n["scrut"])["es"]]
+        return ats if len(ats) == 2 and sorted(a or "" for a in ats) == ["in:client", "in:server"] else None
+
+    def holds(conds, cell):
+        """truth of the path conditions for a cell {in:client, in:server}; None if a condition is not understood"""
+        for kind, cn, extra in conds:
+            if kind == "arm" and is_presence_table(cn):
+                ats = is_presence_table(cn)
+                val = ("t", [("b", cell[a]) for a in ats])
+                chosen = None
+                for i, arm in enumerate(cn["arms"]):
+                    r = T.match_pat(arm["pat"], val, {})
+                    if r is True and "guard" not in arm:
+                        chosen = i
                         break
                     if r is not False:
-                        break
-                got = None
-                if arm is not None:
-                    got = set()
-                    for x in H.walk(arm["body"]):
-                        if _side_ctor(x):
-                            got.add(_side_ctor(x))
-                        if x.get("k") == "mcall" and x["name"] in ("push", "insert", "extend") and H.local_of(x["recv"]):
-                            sl = side_of_local(H.local_of(x["recv"])[0])
-                            got |= sl if sl else {"<list never annotated>"}
-                R.inst(rid, "interfaces:cell:%s" % nm, got == want, sp=(arm or tab)["sp"] if arm is None else arm["body"]["sp"],
-                       expect=sorted(want) or "not listed", got=sorted(got) if got is not None else "no decidable arm",
-                       detail="an interface implemented on one side only is listed in EnvironmentInterfaces with that side")
+                        return None
+                if chosen != extra:
+                    return False
+            elif kind in ("if", "after-exit"):
+                f = B.formula(cn, presence_atom)
+                if any(str(x).startswith("?") for x in B.atoms(f)):
+                    return None
+                if B.ev(f, cell) != bool(extra):
+                    return False
+            elif kind == "arm":
+                continue        # e.g. an enclosing `for`/`match` desugaring unrelated to presence
+            else:
+                return None
+        return True
+    # listing sites: pushes onto a list that is annotated with a side later, direct annotations, and filtered lists
+    sites = []      # (sides, path conditions | formula, node)
+    for n in H.walk(body):
+        if n.get("k") == "mcall" and n["name"] in ("push", "insert") and H.local_of(n["recv"]):
+            sl = side_of_local(H.local_of(n["recv"])[0])
+            if sl:
+                sites.append((sl, ("conds", H.path_conditions(body, n)), n))
+        elif n.get("k") == "let" and "init" in n and n["pat"].get("k") == "bind" and side_of_local(n["pat"]["id"]):
+            ad = []
+            x = H.peel(n["init"])
+            while x.get("k") == "mcall":
+                ad.append(x)
+                x = H.peel(x["recv"])
+            for m_ in ad:
+                if m_["name"] == "filter" and m_["args"] and H.peel(m_["args"][0]).get("k") == "closure":
+                    sites.append((side_of_local(n["pat"]["id"]), ("formula", B.formula(_value_of(H.peel(m_["args"][0])["body"]), presence_atom)), m_))
+    tables = [n for n in H.walk(body) if is_presence_table(n)]
+    if R.anchor(rid, "class_merger_merge: one-sided interface lists (lists filled per interface and annotated with a Side)", len(sites) >= 2, sp=fn["sp"]):
+        used = set()
+        for sl, how, n in sites:
+            if how[0] == "formula":
+                used |= set(B.atoms(how[1]))
+            else:
+                for kind, cn, extra in how[1]:
+                    if kind == "arm" and is_presence_table(cn):
+                        used |= {"in:client", "in:server"}
+                    elif kind in ("if", "after-exit"):
+                        used |= set(B.atoms(B.formula(cn, presence_atom)))
+        R.inst(rid, "interfaces:presence-from-both-sides", {"in:client", "in:server"} <= used and not any(str(u).startswith("?") for u in used),
+               sp=fn["sp"], got=sorted(str(u)[:60] for u in used))
+        for (pc, ps, nm, want) in ((True, False, "client-only", {"Client"}), (False, True, "server-only", {"Server"}),
+                                   (True, True, "both", set()), (False, False, "neither", set())):
+            cell = {"in:client": pc, "in:server": ps}
+            got = set()
+            undecided = False
+            for sl, how, n in sites:
+                if how[0] == "formula":
+                    if any(str(x).startswith("?") for x in B.atoms(how[1])):
+                        undecided = True
+                        continue
+                    env_ = dict(cell)
+                    r = B.ev(how[1], env_)
+                else:
+                    r = holds(how[1], cell)
+                if r is None:
+                    undecided = True
+                elif r:
+                    got |= sl
+            R.inst(rid, "interfaces:cell:%s" % nm, got == want and not undecided, sp=fn["sp"],
+                   expect=sorted(want) or "not listed", got=(sorted(got) + (["<undecided condition>"] if undecided else [])) or "not listed",
+                   detail="an interface implemented on one side only is listed in EnvironmentInterfaces with that side")
     R.floor(rid, 50)
 
 
